@@ -219,6 +219,9 @@ pub fn child(case_file: &str, out: &str) {
                     solver::verif::Event::Stage(name, sch) => {
                         s += &ctx.dump_schedule(&format!("S:{}", name), sch);
                     }
+                    solver::verif::Event::Optimised(vt, tr) => {
+                        s += &ctx.transition_lines("S:optimised", *vt as usize, tr);
+                    }
                     solver::verif::Event::Flow { vehicle_type, arcs, slots, tours } => {
                         writeln!(s, "F begin {} {}", vehicle_type, arcs.len()).unwrap();
                         for (n, c) in slots {
